@@ -12,12 +12,12 @@ CONSTANTS
   Creds = {"token", "basic", "sid", "missing", "expired", "garbage", "deadsid"}
   Places = {"header", "query", "form", "cookie"}
   Sizes = {"small", "over"}
-  Kinds = {"html", "text", "pdf", "png", "bin", "bin_svg"}
+  Kinds = {"html", "text", "pdf", "png", "bin", "bin_svg", "bin_json", "jpeg"}
   Faults = {"none", "create", "start", "finish"}
   Shapes = {"canon", "noext", "bare", "dot_in", "dot_out", "absolute", "encslash", "odd_tail", "odd_head"}
   Limits = {1, 100}
   NewaccVals = {TRUE, FALSE}
-  AsattVals = {TRUE, FALSE}
+  AsattVals = {"<none>", "<empty>", "0", "false", "f", "F", "1", "true", "T", "junk"}
   LongVals = {TRUE, FALSE}
   AllowSlow = TRUE
   DEV_NewaccNoAuth = TRUE
